@@ -278,6 +278,16 @@ func TestC20Lanes(t *testing.T) {
 			if err := l2.K.SetParams(l2.Ctx, p); err != nil {
 				panic(err)
 			}
+			if rapid.IntRange(0, 4).Draw(rt, "blankEntry") == 0 {
+				// a parameter update whose whitelist carries a blank entry next to the real ones (a placeholder left in a
+				// config template): refused, or stored - either way nobody is exempt through it
+				p.FeeWhitelist = append(append([]string{}, wl...), "")
+				r := l2.Deliver(opchildtypes.NewMsgUpdateParams(l2.Authority, &p))
+				if r.OK() {
+					wl = p.FeeWhitelist
+				}
+				c.Class("lanes/parameter-update-with-a-blank-whitelist-entry")
+			}
 			payer := users[rapid.IntRange(0, 3).Draw(rt, "payer")]
 			var granter []byte
 			gi = rapid.IntRange(-1, 3).Draw(rt, "granter")
@@ -338,7 +348,12 @@ func TestC20Redundant(t *testing.T) {
 				to = "not-an-l2-address"
 				c.Class("redundancy/pending-deposit-that-will-be-refunded")
 			}
-			_, p := tc.l1Deposit(tc.users[0], to, coinOf("uinit", int64(10+i)), nil)
+			amt := int64(10 + i)
+			if rapid.IntRange(0, 3).Draw(rt, "zeroAmount") == 0 {
+				amt = 0 // a deposit of nothing (L1 accepts it; it is a fresh deposit like any other)
+				c.Class("session/zero-amount-deposit")
+			}
+			_, p := tc.l1Deposit(tc.users[0], to, coinOf("uinit", amt), nil)
 			pend = append(pend, p)
 		}
 		for i := 0; i < n; i++ {
@@ -446,7 +461,7 @@ func TestC20Session(t *testing.T) {
 		if rapid.IntRange(0, 3).Draw(rt, "presetMetadata") == 0 {
 			// the L2 bank module already has display metadata for the bridged token (written by the operator's genesis)
 			d := tcL2Denom(tc, "uinit")
-			l2.BK.SetDenomMetaData(l2.Ctx, banktypes.Metadata{Base: d, Display: d, Name: "preset", Symbol: "PRE", DenomUnits: []*banktypes.DenomUnit{{Denom: d, Exponent: 0}}})
+			presetBankMetadata(rt, l2, d)
 			c.Class("session/l2-bank-metadata-preset")
 		}
 		n := rapid.IntRange(0, 3).Draw(rt, "processed")
